@@ -28,7 +28,18 @@ def inputs(rng, tier):
         text = "".join('const S%d: []char8 = "a%sz";\n' % (b, spell(b, '"')) for b in range(base, base + 16))
         text += "".join("const C%d: char8 = '%s';\n" % (b, spell(b, "'")) for b in range(base, min(base + 16, 128)))
         out.append(("by%d" % base, text + 'import "it\'s/%d.pn";\n' % base, "escapes"))
+    # references of 125-127 steps (the limit of both generations is 127)
+    for n_ in (125, 126, 127):
+        out.append(("st%d" % n_, "fn main()\n{\n\tvar y = x%s;\n}\n" % (".a" * n_), "long-references"))
+        out.append(("se%d" % n_, "fn main()\n{\n\tvar y = x%s;\n}\n" % ("[0]" * n_), "long-references"))
     return out
+
+
+_SRC = {}
+
+
+def ref_src(f):
+    return _SRC.get(id(f), "")
 
 
 def classify_delta(f, ref):
@@ -40,6 +51,7 @@ def classify_delta(f, ref):
         # the second generation reserves the word `return` (allowed by C14): a label named `return`
         # that is not the function's final return label is a syntax error there
         if ref.count("(label n0)") > ref.count("(label n0)) (ret"): return "delta-rejects-valid:return-as-plain-label"
+        if "[390]" in dstrict and (".a" * 127 in ref_src(f) or "[0]" * 127 in ref_src(f)): return "delta-rejects-valid:reference-of-127-steps"
         return "delta-rejects-valid"
     if dstrict == "ok " + ref: return None
     if dstrict.startswith("err unbalanced"):
@@ -62,6 +74,7 @@ def run(tier):
         f = C.run_harness("syntax-tree", [("w", src)], ck.work + "/witness").get("w", ["missing"])
         if len(f) == 6 and f[5].startswith("panic@"): f = f + [f[5], f[5]]
         if len(f) < 8 or not f[1].startswith("ok "): return None
+        _SRC[id(f)] = src
         return classify_delta(f, f[1][3:])
     ck.witness_runner = witness
     cases = inputs(rng, tier)
@@ -92,12 +105,45 @@ def run(tier):
         if "wf=true" not in m or "roundtrip=true" not in m:
             bad += 1; ck.violation("tie-broken:reference-wf", "reference tree not wf / does not round-trip: " + m.split("\t")[0], src); continue
         distinct.add(ref)
+        _SRC[id(f)] = src
         k = classify_delta(f, f[1][3:])
         stats["valid:" + (k or "delta-equal")] += 1
         if k is not None:
             ck.violation("delta:" + k, "second-generation parser on a syntactically valid module: " + k,
                          "source:\n%s\nfirst generation / reference:\n%s\nsecond generation (strict XML decoding): %s\nwith dump defects repaired: %s" % (src, C.unesc(f[1][3:]).decode(errors="replace")[:2000], f[5][:600], f[6][:300]))
     ck.log("syntax trees: %d inputs %s, %d tie problems" % (len(cases), dict(stats), bad))
+    # the tie of Model/DeltaExpr.v: on the tokens of `const X: i32 = EXPR;` the model of the second-generation
+    # expression parser accepts exactly when the real one does (and the reference exactly when the first generation does)
+    erng = random.Random(ck.seed + 1616)
+    ecases = []
+    for i in range(600 if tier == "quick" else 30000):
+        syn = GS.Syn(random.Random(erng.getrandbits(64)), trailing_commas=(i % 3 != 0), newline_layout=False)
+        e = syn.expr(erng.choice([1, 2, 3]), nobrace=False)
+        if i % 7 == 0: e = erng.choice(["a + b & c", "a * b << c", "a as [:][:]u8", "x" + ".a" * erng.choice([126, 127, 128]), "&" * erng.choice([1, 127, 128]) + "a",
+                                        "a & b & c", "a & b | c", "a + b + c & d", "-5", "- 5", "-(5)", "a as u8 as u16 as u32", "|:[3][]u8|", "f(g(h(1)))", "[[1, 2], [3]]", "a.b[c.d[e]].f"])
+        ecases.append(("x%d" % i, "const X: i32 = %s;\n" % e))
+    eimpl = C.run_harness("syntax-tree", ecases, ck.work + "/dexpr", timeout=1800)
+    emodel = C.run_model([("dexpr", cid, eimpl[cid][0]) for cid, _ in ecases if cid in eimpl and len(eimpl[cid]) >= 6 and not eimpl[cid][0].startswith("lexerr")], ck.work + "/dexpr")
+    ebad = 0; estats = collections.Counter()
+    for cid, src in ecases:
+        f = eimpl.get(cid, ["missing"]); m = emodel.get(cid)
+        if m is None or len(f) < 6: estats["not-compared"] += 1; continue
+        mm = dict(x.split("=") for x in m.split(" ")) if m.startswith("delta=") else {}
+        if not mm:
+            ebad += 1; ck.violation("tie-broken:model-error", "DeltaExpr model failed: " + m[:200], src); continue
+        if f[5].startswith("panic"): continue                      # (classified by the tree comparison above / C15)
+        real_delta = "rejected" if f[5].startswith("parseerr") else "ok"
+        real_alpha = "ok" if f[1].startswith("ok ") else "rejected"
+        model_delta = "ok" if mm["delta"] == "ok" else "rejected"
+        model_ref = "ok" if mm["reference"] == "ok" else "rejected"
+        estats["delta-%s/alpha-%s" % (real_delta, real_alpha)] += 1
+        if real_delta != model_delta:
+            ebad += 1; ck.violation("tie-broken:delta-expression-model", "the second-generation parser %s the expression, Model/DeltaExpr.v says %s (%s)" % (real_delta, model_delta, m), "source: %s\nreal: %s" % (src, f[5][:300]))
+        elif real_alpha != model_ref:
+            ebad += 1; ck.violation("tie-broken:reference-verdict", "the first-generation parser %s the expression, the reference parser says %s" % (real_alpha, model_ref), "source: %s\nreal: %s" % (src, f[1][:300]))
+        elif mm["same"] == "false":
+            ebad += 1; ck.violation("tie-broken:delta-expression-model", "model trees differ although both accept (contradicts C16_delta_expression_is_reference)", src)
+    ck.log("expression parser tie: %d expressions %s, %d problems" % (len(ecases), dict(estats), ebad))
     if not proof_ok:
         ck.violation("tie-broken:proof", "Props/C16.v no longer checks", getattr(ck, "proof_output", "")[-2000:])
     ck.coverage.update(
